@@ -15,22 +15,22 @@ package raft
 // protocol assumption PA-ch.last-applied: the FSM goroutine only ever applies views ViewAt(prev, commitIndex)
 // handed to it by applyCommitted (C03.apply-view, C03.apply-contiguous: fsm.index == view.glast) or restores
 // the snapshot the commit index was reset to, and the commit index never decreases afterwards (C19).
-//@ func (*Raft).lastApplied
+//@ func (*Raft).lastApplied params(r)
 //@   trusted
 //@   requires r.fsm != nil
 //@   ensures [PA-ch.last-applied] result0 <= r.commitIndex
 
 // resolver lookup only (trusted lookupID: T-go, mutex + user callback)
-//@ func (*Raft).addr
+//@ func (*Raft).addr params(r)
 //@   requires r.storage != nil && r.resolver != nil
 
-//@ func (Configs).clone
+//@ func (Configs).clone params(c)
 //@   ensures [C08.clone-same] result0.Committed.Index == c.Committed.Index && result0.Committed.Term == c.Committed.Term && result0.Latest.Index == c.Latest.Index && result0.Latest.Term == c.Latest.Term
 //@   ensures [C08.clone-same] forall(k, has(result0.Committed.Nodes, k) == has(c.Committed.Nodes, k) && result0.Committed.Nodes[k] == c.Committed.Nodes[k])
 //@   ensures [C08.clone-same] forall(k, has(result0.Latest.Nodes, k) == has(c.Latest.Nodes, k) && result0.Latest.Nodes[k] == c.Latest.Nodes[k])
 //@   ensures [C08.clone-fresh] isfresh(result0.Committed.Nodes) && isfresh(result0.Latest.Nodes) && result0.Committed.Nodes != result0.Latest.Nodes
 
-//@ func (*Raft).info
+//@ func (*Raft).info params(r)
 // OUTSIDE ENGINE REACH (assumed, listed in the evidence): the leader branch stores the interior pointer
 // &repl.status.noContact into a map value; the non-leader path of this contract was discharged 26/26
 //@   trusted
@@ -58,12 +58,12 @@ package raft
 //@ pure AddrsUnique(c Config) bool = forall(j, k, has(c.Nodes, j) && has(c.Nodes, k) && j != k ==> c.Nodes[j].Addr != c.Nodes[k].Addr)
 //@ pure VotersSame(c *Config) bool = forall(k, IsVoter(*c, k) == old(IsVoter(*c, k)))
 
-//@ func (Config).nodeForAddr
+//@ func (Config).nodeForAddr params(c, addr)
 //@   ensures [C08.addr-lookup] result1 ==> result0.Addr == addr && exists(k, has(c.Nodes, k) && c.Nodes[k] == result0)
 //@   ensures [C08.addr-lookup] !result1 ==> forall(k, has(c.Nodes, k) ==> c.Nodes[k].Addr != addr)
 //@   loop 1 invariant subset(visitedset(), keys(c.Nodes)) && forall(k, visited(k) ==> c.Nodes[k].Addr != addr)
 
-//@ func (*Config).addNode
+//@ func (*Config).addNode params(c, n)
 //@   requires c.Nodes != nil
 //@   modifies contents(c.Nodes)
 //@   ensures [C08.add-valid-new-node] result0 == nil ==> NodeOK(n) && !old(has(c.Nodes, n.ID)) && has(c.Nodes, n.ID) && c.Nodes[n.ID] == n
@@ -71,7 +71,7 @@ package raft
 //@   ensures [C08.error-changes-nothing] result0 != nil ==> NodesSame(c)
 //@   ensures [C08.no-overwrite] old(has(c.Nodes, n.ID)) ==> result0 != nil
 
-//@ func (*Config).AddVoter
+//@ func (*Config).AddVoter params(c, id, addr)
 //@   requires c.Nodes != nil
 //@   modifies contents(c.Nodes)
 //@   ensures [C08.voters-only-at-bootstrap] c.Index > 0 ==> result0 != nil
@@ -79,7 +79,7 @@ package raft
 //@   ensures [C08.add-frame] NodesSameExcept(c, id) && c.Index == old(c.Index) && c.Term == old(c.Term)
 //@   ensures [C08.error-changes-nothing] result0 != nil ==> NodesSame(c)
 
-//@ func (*Config).AddNonvoter
+//@ func (*Config).AddNonvoter params(c, id, addr, promote)
 //@   requires c.Nodes != nil
 //@   modifies contents(c.Nodes)
 //@   ensures [C08.new-nodes-join-as-nonvoters] result0 == nil ==> !old(has(c.Nodes, id)) && has(c.Nodes, id) && !c.Nodes[id].Voter && c.Nodes[id].ID == id && c.Nodes[id].Addr == addr && c.Nodes[id].Action == ite(promote, Promote, None) && id != 0
@@ -87,7 +87,7 @@ package raft
 //@   ensures [C08.add-frame] NodesSameExcept(c, id) && c.Index == old(c.Index) && c.Term == old(c.Term)
 //@   ensures [C08.error-changes-nothing] result0 != nil ==> NodesSame(c)
 
-//@ func (*Config).SetAction
+//@ func (*Config).SetAction params(c, id, action)
 //@   requires c.Nodes != nil
 //@   modifies contents(c.Nodes)
 //@   ensures [C08.action-set] result0 == nil ==> old(has(c.Nodes, id)) && has(c.Nodes, id) && c.Nodes[id].Action == action && c.Nodes[id].ID == old(c.Nodes[id].ID) && c.Nodes[id].Addr == old(c.Nodes[id].Addr) && c.Nodes[id].Data == old(c.Nodes[id].Data)
@@ -97,7 +97,7 @@ package raft
 //@   ensures [C08.error-changes-nothing] result0 != nil ==> NodesSame(c)
 //@   ensures [C08.unknown-node] !old(has(c.Nodes, id)) ==> result0 != nil
 
-//@ func (*Config).SetAddr
+//@ func (*Config).SetAddr params(c, id, addr)
 //@   requires c.Nodes != nil
 //@   modifies contents(c.Nodes)
 //@   ensures [C08.addr-set] result0 == nil ==> old(has(c.Nodes, id)) && has(c.Nodes, id) && c.Nodes[id].Addr == addr && c.Nodes[id].ID == old(c.Nodes[id].ID) && c.Nodes[id].Action == old(c.Nodes[id].Action) && c.Nodes[id].Data == old(c.Nodes[id].Data)
@@ -108,7 +108,7 @@ package raft
 //@   ensures [C08.error-changes-nothing] result0 != nil ==> NodesSame(c)
 //@   ensures [C08.unknown-node] !old(has(c.Nodes, id)) ==> result0 != nil
 
-//@ func (*Config).SetData
+//@ func (*Config).SetData params(c, id, data)
 //@   requires c.Nodes != nil
 //@   modifies contents(c.Nodes)
 //@   ensures [C08.data-set] result0 == nil ==> old(has(c.Nodes, id)) && has(c.Nodes, id) && c.Nodes[id].Data == data && c.Nodes[id].ID == old(c.Nodes[id].ID) && c.Nodes[id].Action == old(c.Nodes[id].Action) && c.Nodes[id].Addr == old(c.Nodes[id].Addr)
@@ -133,7 +133,7 @@ package raft
 //@ pure ConnReturned(x *conn) int = x.greturned
 
 // network boundary (T-go), trusted: the reference contract of (*conn).doRPC plus the exchange counter
-//@ view (*conn).doRPC at (*connPool).doRPC
+//@ view (*conn).doRPC at (*connPool).doRPC params(c, req, resp, deadline)
 //@   modifies c.gcid, c.gnid, allof(resp), c.gexch
 //@   ensures result0 == nil && istype(req, *identityReq) && istype(resp, *identityResp) && as(resp, *identityResp).result == success ==> c.gcid == as(req, *identityReq).cid && c.gnid == as(req, *identityReq).nid
 //@   ensures !istype(req, *identityReq) ==> c.gcid == old(c.gcid) && c.gnid == old(c.gnid)
@@ -143,7 +143,7 @@ package raft
 // returns has a socket (PoolInv for pooled ones, dial for fresh ones). This view = reference contract + that one
 // clause; the clause was checked by adding it to the reference contract in a scratch copy: getConn verifies 59/59.
 // To be reconciled by adding `ensures result1 == nil ==> result0.rwc != nil` to getConn and deleting this view.
-//@ view (*connPool).getConn at (*connPool).doRPC
+//@ view (*connPool).getConn at (*connPool).doRPC params(pool, deadline)
 //@   requires PoolInv(pool) && pool.resolver != nil && !tzero(deadline.wall, deadline.ext)
 //@   modifies pool.conns, contents(pool.conns)
 //@   ensures [C20.conn-handshake] result1 == nil ==> result0 != nil && result0.gcid == pool.cid && result0.gnid == pool.nid
@@ -152,7 +152,7 @@ package raft
 //@   ensures [C20.pool-inv] PoolInv(pool)
 
 // (C01, C17: replies are matched to requests by their position on the connection; a connection whose exchange failed still owes a reply, so reusing it would hand a stale answer, e.g. a vote of an earlier election, to the next request)
-//@ func (*connPool).doRPC
+//@ func (*connPool).doRPC params(pool, req, resp, deadline)
 //@   props C01 C15
 //@   requires PoolInv(pool) && pool.resolver != nil && !tzero(deadline.wall, deadline.ext)
 // a second handshake on a checked connection could re-label it; the identity exchange belongs to getConn
@@ -198,7 +198,7 @@ package raft
 //@ pure IsLeaderTask(t Task) bool = istype(t, changeConfig) || istype(t, waitForStableConfig) || istype(t, transferLdr)
 //@ pure KnownTask(t Task) bool = istype(t, infoTask) || istype(t, inspect) || istype(t, changeConfig) || istype(t, waitForStableConfig) || istype(t, takeSnapshot) || istype(t, transferLdr) || istype(t, *newEntry) || istype(t, newEntry) || istype(t, lastApplied) || istype(t, fsmSnapReq) || istype(t, *task)
 
-//@ func (*leader).executeTask
+//@ func (*leader).executeTask params(l, t)
 //@   maypanic OpError
 //@   props C15
 //@   requires LeaderWF(l) && l.flushed >= l.commitIndex && XferWF(l) && !has(l.configs.Latest.Nodes, 0) && l.nid != 0
@@ -228,7 +228,7 @@ package raft
 //@ pure HandedOver(t Task, ldr bool) bool = istype(t, changeConfig) || istype(t, takeSnapshot) || (ldr && (istype(t, waitForStableConfig) || istype(t, transferLdr)))
 //@ pure LdrTaskPre(l *leader) bool = LeaderWF(l) && l.flushed >= l.commitIndex && XferWF(l) && !has(l.configs.Latest.Nodes, 0) && l.nid != 0 && (CfgCommitted(l.storage) ==> IsVoter(l.configs.Latest, l.nid))
 
-//@ func (*Raft).executeTask
+//@ func (*Raft).executeTask params(r, t)
 //@   maypanic OpError
 //@   props C15
 //@   requires NodeInv(r)
@@ -270,11 +270,11 @@ package raft
 // counters gtin (tasks taken from fsmTaskCh) and gtout (tasks handed over on newEntryCh) are updated
 // at the receive and at the two send sites, so "no accepted task is dropped, also at shutdown" becomes
 // a postcondition. Assumed channel invariant: a submitted task is not nil.
-//@ func (*newEntry).newEntry
+//@ func (*newEntry).newEntry params(ne)
 //@   ensures result0 == ne
 //@ ghost var gtin int
 //@ ghost var gtout int
-//@ func (*Raft).runBatch
+//@ func (*Raft).runBatch params(r)
 //@   requires gtin == gtout
 //@   modifies gtin, gtout, newEntry.next
 //@   recvassume 2: ptrnonnil(recv)
